@@ -74,6 +74,7 @@ def run(tier):
         "model": {"cfgs": [m.cmd.split()[-3].split("/")[-1] for m in ms],
                   "constants": "one contract of 2 sectors, 2 (thorough also 3) renter sessions, every revising RPC x every corruption class, aborts, small model prices with payments running out; complete reachable state space up to the commit bound"},
         "replay": {k: rr[k] for k in ("states", "edges", "paths", "covered", "replayed", "steps", "full", "mismatches")},
+        "replay_graph": rr["histogram"],
         "trace_validation": {k: tt[k] for k in ("traces", "events", "accepted", "rejected", "suspect")},
         "concurrent": {"traces": cc["traces"], "events": cc["events"], "accepted": cc["accepted"], "rejected": cc["rejected"],
                        "attempts": cc["counts"].get("concurrent_attempts", 0), "commits": cc["counts"].get("concurrent_commits", 0)},
@@ -110,4 +111,7 @@ def selftest():
     ok2 = cv["rejected"] >= 1
     log("selftest (concurrent trace of the refunding contractor rejected by TLC): %s" % ("ok" if ok2 else "FAILED"))
     ok3 = H.corrupted_trace_rejected(wd, binary, "revisions", {"VERIF_TRACES": 2, "VERIF_OPS": 30, "VERIF_GENTLE": 1}, "rout")
-    return 0 if ok1 and ok2 and ok3 else 2
+    r = vlib.go_run(binary, "TestOracles", wd)
+    ok4 = r["exit"] == 0
+    log("selftest (signature / consensus oracles accept a genuine revision and reject altered ones): %s" % ("ok" if ok4 else "FAILED"))
+    return 0 if ok1 and ok2 and ok3 and ok4 else 2
